@@ -114,7 +114,25 @@ def cond_facts(c, m):
         return f, t
     if i.op in ("zext", "trunc"):
         return cond_facts(i.ops[0], m)
-    if i.op != "icmp" or i.pred not in ("eq", "ne"):
+    if i.op == "icmp" and i.pred not in ("eq", "ne"):
+        # ordered comparison of the byte with a constant: the edge on which a NUL byte would have gone the other way knows
+        # that the byte is not NUL
+        a, b = i.ops
+        swap = {"slt": "sgt", "sgt": "slt", "sle": "sge", "sge": "sle", "ult": "ugt", "ugt": "ult", "ule": "uge", "uge": "ule"}
+        pred = i.pred
+        if a.is_const_int():
+            a, b, pred = b, a, swap[pred]
+        ld = byte_of(a)
+        if ld is None or not b.is_const_int():
+            return [], []
+        k = pkey(ld.ops[0], m)
+        if not k:
+            return [], []
+        bits = int(b.ty[1:])
+        zero_holds = paths.fold_icmp(pred, ("c", bits, 0), ("c", bits, b.uval & ((1 << bits) - 1)))[2]
+        fact = ("nonnul", k[0], k[1])
+        return ([], [fact]) if zero_holds else ([fact], [])
+    if i.op != "icmp":
         return [], []
     a, b = i.ops
     if a.is_const_int() or a.is_null():
@@ -524,6 +542,127 @@ def check_return_edge(chk, m, fn, t, v, pred, blk, part, S):
 # ---------------------------------------------------------------------------------------------
 # H3: digit maps
 # ---------------------------------------------------------------------------------------------
+
+CTYPE_FUNCS = {"isspace": lambda ch: ch in " \t\n\v\f\r", "isblank": lambda ch: ch in " \t", "isxdigit": lambda ch: ch in "0123456789abcdefABCDEF",
+               "isdigit": lambda ch: ch.isdigit(), "isalpha": lambda ch: ch.isalpha(), "isalnum": lambda ch: ch.isalnum(),
+               "isupper": lambda ch: ch.isupper(), "islower": lambda ch: ch.islower(), "iscntrl": lambda ch: ord(ch) < 32 or ord(ch) == 127,
+               "isprint": lambda ch: 32 <= ord(ch) < 127, "isgraph": lambda ch: 32 < ord(ch) < 127,
+               "ispunct": lambda ch: 32 < ord(ch) < 127 and not ch.isalnum()}
+# glibc's __ctype_b bit of each class (little endian hosts), "C" locale contents
+CTYPE_BITS = {"isupper": 0x100, "islower": 0x200, "isalpha": 0x400, "isdigit": 0x800, "isxdigit": 0x1000, "isspace": 0x2000,
+              "isprint": 0x4000, "isgraph": 0x8000, "isblank": 0x1, "iscntrl": 0x2, "ispunct": 0x4, "isalnum": 0x8}
+WHITE_SPACE = frozenset(b" \t\n\v\f\r")
+
+
+def ctype_mask(v):
+    """__ctype_b[v] in the "C" locale; v is the (sign- or zero-extended) character value used as subscript."""
+    if not 0 <= v < 128:
+        return 0
+    ch = chr(v)
+    return sum(bit for name, bit in CTYPE_BITS.items() if CTYPE_FUNCS[name](ch))
+
+
+def eval_at_byte(e, S, c):
+    """Value of expression e when the byte at the cursor S is c; NoValue for anything that is not a function of that byte."""
+    k = e[0]
+    if k == "c":
+        return e[2]
+    if k == "null":
+        return 0
+    if k == "ld":
+        if e[1] == S and e[2] == 1:
+            return c
+        r, o, v = ptr_parts(e[1])
+        if r[0] == "ld" and r[1][0] == "call" and r[1][1] == "__ctype_b_loc" and len(v) == 1 and v[0][1] == 2 and o % 2 == 0:
+            idx = eval_at_byte(v[0][0], S, c)
+            bits = paths.expr_bits(v[0][0]) or 64
+            if idx >> (bits - 1):
+                idx -= 1 << bits
+            return ctype_mask(idx + o // 2)
+        raise NoValue(e)
+    if k == "call" and isinstance(e[1], str) and e[1] in CTYPE_FUNCS and len(e[2]) == 1:
+        v = eval_at_byte(e[2][0], S, c) & 0xffffffff
+        v = v - (1 << 32) if v >> 31 else v
+        return 1 if (0 <= v < 128 and CTYPE_FUNCS[e[1]](chr(v))) else 0
+    if k == "cast":
+        v = eval_at_byte(e[4], S, c)
+        return eval_concrete(("cast", e[1], e[2], e[3], ("c", e[2], v & ((1 << e[2]) - 1))), {})
+    if k == "b":
+        a, b = eval_at_byte(e[3], S, c), eval_at_byte(e[4], S, c)
+        r = paths.fold_bin(e[1], e[2], ("c", e[2], a & ((1 << e[2]) - 1)), ("c", e[2], b & ((1 << e[2]) - 1)))
+        if r is None:
+            raise NoValue(e)
+        return r[2]
+    if k == "icmp":
+        bits = paths.expr_bits(e[2]) or paths.expr_bits(e[3]) or 64
+        a, b = eval_at_byte(e[2], S, c), eval_at_byte(e[3], S, c)
+        return paths.fold_icmp(e[1], ("c", bits, a & ((1 << bits) - 1)), ("c", bits, b & ((1 << bits) - 1)))[2]
+    if k == "sel":
+        return eval_at_byte(e[2] if eval_at_byte(e[1], S, c) else e[3], S, c)
+    raise NoValue(e)
+
+
+def check_whitespace_class(chk, m):
+    """H2.whitespace-class: "hex pairs may carry ... arbitrary white space".  The characters the scanner steps over one at a
+    time without consuming a pair - every loop-free segment that arrives at a loop head with the cursor advanced by exactly
+    one and whose decisions are functions of the byte under the cursor alone - are evaluated for all 255 non-NUL byte values
+    with the "C" locale's classification: the set stepped over must be exactly C's white space {space, \\t, \\n, \\v, \\f, \\r}.
+    A scanner that advances with strspn(s, "<set>") is judged by the literal set."""
+    fn = m.fn("hex_get_byte")
+    try:
+        segs = [(s, p) for s, p in paths.enumerate_segments(fn, m) if p.end.startswith("cut:")]
+    except AnalysisError as e:
+        chk.unknown("H2.whitespace-class", "hex_get_byte", str(e), fn.loc)
+        return
+    K = set()
+    n_skip = 0
+    loc = fn.loc
+    for s, p in segs:
+        for name, v in (getattr(p, "carried", None) or {}).items():
+            if not (isinstance(v, tuple) and v[0] == "p" and v[1][0] == "sym" and v[2] == 1 and not v[3]):
+                continue
+            S = v[1]
+            if any(e.kind == "store" for e in p.events):
+                continue
+            ok_seg = True
+            hit = set()
+            # decisions that do not look at the byte under the cursor (a pending-newline flag, whether the next line has an
+            # address prefix) only select among ways of stepping over it: the step exists for c if the byte's own tests allow it
+            mine = [(cd, t) for cd, t, i in p.conds if (i is None or i.op != "switch") and
+                    any(x[0] == "ld" and x[1] == S and x[2] == 1 for x in paths.subexprs(cd))]
+            for c in range(1, 256):
+                # the byte as the program's `char` sees it is decided by the casts in the expressions (sext / zext of the i8 load)
+                try:
+                    if all(bool(eval_at_byte(cd, S, c)) == bool(t) for cd, t in mine):
+                        hit.add(c)
+                except NoValue:
+                    ok_seg = False
+                    break
+            if ok_seg and mine:
+                n_skip += 1
+                K |= hit
+                loc = p.conds[-1][2].loc
+    for blk in fn.order:
+        for i in blk.insts:
+            if i.op == "call" and i.callee == "strspn":
+                lit = literal_of(i.args[1], m)
+                if lit is not None:
+                    n_skip += 1
+                    K |= set(lit.encode("latin-1"))
+                    loc = i.loc
+    if not n_skip:
+        chk.unknown("H2.whitespace-class", "hex_get_byte", "no single-character skip step and no strspn over a literal set found: "
+                    "the white-space handling is in a form this rule does not recognise", fn.loc)
+        return
+    missing, extra = sorted(WHITE_SPACE - K), sorted(K - WHITE_SPACE)
+    show = lambda xs: ", ".join(repr(chr(x)) for x in xs[:8])
+    chk.ob("H2.whitespace-class", "hex_get_byte", not missing and not extra,
+           "the characters stepped over between pairs are exactly C's white space (%d skip steps evaluated for 255 byte values)" % n_skip
+           if not missing and not extra else
+           ("white space that is NOT stepped over: %s - a pair that follows it is treated as junk and the rest of the line (or of the "
+            "text) is dropped. " % show(missing) if missing else "") +
+           ("characters stepped over that are not white space: %s. " % show(extra) if extra else ""), loc, fn.name)
+
 
 def eval_fn(fn, m, argval):
     """Finite-set evaluation of a one-argument helper on a concrete argument."""
@@ -953,6 +1092,7 @@ def run(chk):
     m = build.load_unit("librfn/hex.c")
     chk.note_unit(m)
     check_get_byte(chk, m)
+    check_whitespace_class(chk, m)
     check_digit_maps(chk, m)
     check_dump(chk, m)
     if chk.tier == "thorough":
@@ -961,6 +1101,7 @@ def run(chk):
         chk.note_unit(m2)
         chk.rule_prefix = "uchar."
         check_get_byte(chk, m2)
+        check_whitespace_class(chk, m2)
         check_digit_maps(chk, m2)
         check_dump(chk, m2)
         chk.rule_prefix = ""
